@@ -76,21 +76,61 @@ def plan_reason(world, op, plan):
         return pt in d and f in d[pt]
 
     def scrubbed(path, pt, f):
+        if world["types"].get(pt, {}).get("kind") in ("INTERFACE", "UNION"):
+            return all(f in plan["scrub"].get(".".join(path), {}).get(m, []) for m in world["types"][pt]["members"])
         return f in plan["scrub"].get(".".join(path), {}).get(pt, [])
+    def is_abs(t):
+        return world["types"].get(t, {}).get("kind") in ("INTERFACE", "UNION")
+
+    def members(t):
+        return world["types"][t]["members"]
+
+    def same_spot(a, b):
+        return a[0] == b[0] and a[2] == b[2] and a[3] == b[3]
+
+    def related(t1, t2):
+        return t1 == t2 or (is_abs(t2) and t1 in members(t2)) or (is_abs(t1) and t2 in members(t1))
     for n in sorted(client):
-        if not any(x[0] == n and declares(x[1], n[1], n[2]) for x in sent):
+        ok = any(x[0] == n and declares(x[1], n[1], n[2]) for x in sent)
+        if not ok and is_abs(n[1]):
+            ok = all(any(same_spot(x[0], n) and x[0][1] == m and declares(x[1], m, n[2]) for x in sent) for m in members(n[1]))
+        if not ok:
             return "plan:client-field-not-sent-to-a-service-that-declares-it"
     for (n, url) in sorted(sent):
-        if n in client:
+        if any(same_spot(n, c) and related(n[1], c[1]) for c in client):
             continue
         if n[2] not in ("id", "__typename") or n[3] != n[2]:
             return "plan:field-added-that-the-client-did-not-select"
         if not scrubbed(n[0], n[1], n[2]):
             return "plan:helper-not-registered-for-removal"
     for n in sorted(client):
-        if n[2] in ("id", "__typename") and n[3] == n[2] and scrubbed(n[0], n[1], n[2]):
+        if n[2] in ("id", "__typename") and n[3] == n[2] and not is_abs(n[1]) and scrubbed(n[0], n[1], n[2]):
             return "plan:client-selected-field-registered-for-removal"
     return "plan:other"
+
+
+def _render(v):
+    t = v["t"]
+    if t in ("s", "e"):
+        return v["v"]
+    if t == "i":
+        return str(v["v"])
+    if t == "b":
+        return "TRUE" if v["v"] else "FALSE"
+    if t == "z":
+        return "~"
+    return "?"
+
+
+def _var_ok(op, r, v):
+    if v == "id" and "id" not in op["varDefs"]:
+        return True
+    if v in op["vars"]:
+        return r["passed"].get(v) == _render(op["vars"][v])
+    d = op["varDefs"].get(v, {}).get("def")
+    if d is not None:
+        return r["defaults"].get(v) == _render(d) or r["passed"].get(v) == _render(d)
+    return v not in r["passed"] or r["passed"][v] == "~"
 
 
 def call_reason(op, call, enforce):
@@ -105,14 +145,8 @@ def call_reason(op, call, enforce):
             if not r["inPlan"]:
                 return "call:request-is-not-an-instance-of-a-plan-step"
             for v in r["used"]:
-                if v == "id" and "id" not in op["varDefs"]:
-                    continue
-                return_bad = False
-                if v in op["vars"]:
-                    return_bad = v not in r["passed"]
-                if return_bad:
-                    return "call:client-variable-value-not-forwarded"
-            return "call:variable-value-or-default-differs"
+                if not _var_ok(op, r, v):
+                    return "call:variable-value-or-default-not-forwarded"
         if "C06" in enforce:
             if r["kw"] == "mutation" and op["kind"] != "mutation":
                 return "call:mutation-sent-for-a-query"
